@@ -67,6 +67,19 @@ Theorem C27_unsub : forall evs i,
 Proof. exact unsub_completes. Qed.
 Print Assumptions C27_unsub.
 
+(* ... and when EVERY subscriber is cancelled and unsubscribed this way no
+   hypothesis about stalled readers is needed: all calls return, the map is
+   empty, every channel is closed *)
+Theorem C27_unsub_all : forall evs,
+  let s0 := run init evs in
+  aliveb s0 = true ->
+  let s := run s0 (cancel_all (length (clients s0))) in
+  let s1 := drain (drain_bound s) s in
+  quiescentb s1 = true /\ subs s1 = [] /\ unsubq s1 = [] /\
+  (forall i c, nth_error (clients s1) i = Some c -> cclosed c = true).
+Proof. exact unsub_all. Qed.
+Print Assumptions C27_unsub_all.
+
 (* the unrestricted statement is false of the code as it is *)
 Theorem C27_full_refuted : ~ C27_full.
 Proof. exact full_refuted. Qed.
